@@ -37,27 +37,37 @@ func genWeightedCluster() (string, error) {
 	}
 	env := &Env{
 		Names: map[string]string{
-			"selectedValue":                "selectedValue",
-			val.Name + ".clusterWeight":    "clusterWeight",
-			val.Name + ".clusterName":      "clusterName",
+			"selectedValue":             "selectedValue",
+			val.Name + ".clusterWeight": "clusterWeight",
+			val.Name + ".clusterName":   "clusterName",
 		},
 		Calls: map[string]string{"int": "", "int64": "", "uint32": ""},
-		Ret: func(rs []string) string {
-			if len(rs) != 1 {
-				return "ERR"
-			}
-			return "(selectedValue, some " + rs[0] + ")"
-		},
-		Fall: "(selectedValue, none)",
 	}
-	body, err := env.block(loop.Body.List, "  ")
+	// the loop body is translated by the control-aware translator (gen_c06h.go): `continue` and `break` are outcomes
+	// of an iteration like `return`, so a shortcut `if … { break }` is part of the regenerated step.
+	ctl := c06hCtl{
+		Next: "(selectedValue, Ctl.next)",
+		Stop: "(selectedValue, Ctl.stop)",
+		Ret: func(rs []string) (string, error) {
+			if len(rs) != 1 {
+				return "", fmt.Errorf("return arity")
+			}
+			return "(selectedValue, Ctl.ret " + rs[0] + ")", nil
+		},
+	}
+	body, err := c06hCtlBlock(env, ctl, loop.Body.List, "  ")
 	if err != nil {
 		return "", err
 	}
 	// the draw: selectedValue := rri.randInstance.Intn(int(rri.totalClusterWeight))
 	s := header("WeightedCluster", src+" (RouteRuleImplBase.ClusterName loop body)")
-	s += "/-- one iteration of the scan: (new remainder, returned cluster name if the scan stops here). Integers are unbounded `Int` (cluster weights are uint32, the draw < total ≤ 2^32·n: no overflow in `int`). -/\n"
-	s += "def step (selectedValue : Int) (clusterWeight : Int) (clusterName : String) : Int × Option String :=\n  " + body + "\n"
+	s += "/-- how one iteration of the scan ends: `next` = the next map entry is visited (end of the body or `continue`),\n`stop` = `break` (the scan ends without a result: `ClusterName` returns the default cluster), `ret n` = `return n`. -/\n"
+	s += "inductive Ctl where\n  | next | stop | ret (name : String)\nderiving Repr, DecidableEq, Inhabited\n\n"
+	s += "/-- one iteration of the scan: (new remainder, how the iteration ends). Integers are unbounded `Int` (cluster weights are uint32, the draw < total ≤ 2^32·n: no overflow in `int`). -/\n"
+	s += "def stepCtl (selectedValue : Int) (clusterWeight : Int) (clusterName : String) : Int × Ctl :=\n  " + body + "\n\n"
+	s += "/-- the iteration as (new remainder, returned cluster name if `ClusterName` returns here). -/\n"
+	s += "def step (selectedValue : Int) (clusterWeight : Int) (clusterName : String) : Int × Option String :=\n"
+	s += "  match stepCtl selectedValue clusterWeight clusterName with\n  | (v, Ctl.ret n) => (v, some n)\n  | (v, _) => (v, none)\n"
 	s += footer("WeightedCluster")
 	return s, nil
 }
